@@ -1286,7 +1286,58 @@ def gen_C18(rng, n):
     return out
 
 
+def thin(ls, n):
+    """deterministic proportional thinning that keeps the order (atlas first)"""
+    if len(ls) <= n:
+        return ls
+    step = len(ls) / n
+    return [ls[int(i * step)] for i in range(n)]
+
+
+def gen_F07(rng, n):
+    """feature serde-as-str: serialize = to_string, deserialize . serialize = id, deserialize(s) = from_str(s)"""
+    a = []
+    for l in gen_C07(rng, n):
+        t = l.split()
+        a.append("ft.serde 5 %s %s" % (t[2], t[3]))
+    b = ["ft.serdestr 5 " + l.split()[2] for l in gen_C06(rng, n) if l.startswith("str.parse")]
+    a = list(dict.fromkeys(a)); b = list(dict.fromkeys(b))
+    return thin(a, n - n // 3) + thin(b, n // 3)
+
+
+def gen_F08(rng, n):
+    """feature rkyv: archive/deserialize identity and the ArchivedDecimal comparison impls"""
+    out = []
+    for l in gen_C08(rng, 2 * n):
+        t = l.split()
+        if t[0].startswith("dd."):
+            out.append("ft.rkyv 5 %s %s %s %s" % (t[2], t[3], t[4], t[5]))
+    return thin(list(dict.fromkeys(out)), n)
+
+
+def gen_F15(rng, n):
+    """feature num-traits: Zero / One / Signed / Num forwarders"""
+    ops = []
+    for l in gen_C15(rng, n):
+        t = l.split()
+        if t[0].startswith("un.") and len(t) >= 4:
+            ops.append((t[2], t[3]))
+    ops = list(dict.fromkeys(ops))
+    out = []
+    for i, (c, p) in enumerate(ops):
+        c2, p2 = ops[(i * 7 + 3) % len(ops)] if i % 3 else (c, p)
+        out.append("ft.nt 5 %s %s %s %s" % (c, p, c2, p2))
+        if i % 5 == 0:      # same value, other representation / neighbour values / overflowing difference
+            out.append("ft.nt 5 %s %s %s %s" % (c, p, hx(clamp(-int(c.replace("-", "-0x") if c.startswith("-") else "0x" + c, 16))), p))
+    strs = [l.split()[2] for l in gen_C06(rng, max(200, n // 4)) if l.startswith("str.parse")]
+    rad = []
+    for i, h_ in enumerate(dict.fromkeys(strs)):
+        rad.append("ft.radix 5 %s %d" % (h_, 10 if i % 4 else rng.choice((2, 8, 16, 36, 9, 11, 0, 1))))
+    return thin(out, n - n // 4) + thin(rad, n // 4)
+
+
 GENS = {
+    "F07": gen_F07, "F08": gen_F08, "F15": gen_F15,
     "C01": gen_C01, "C02": gen_C02, "C03": gen_C03, "C04": gen_C04, "C05": gen_C05,
     "C08": gen_C08, "C10": gen_C10, "C14": gen_C14, "C15": gen_C15, "C16": gen_C16,
     "C06": gen_C06, "C07": gen_C07, "C09": gen_C09, "C11": gen_C11, "C12": gen_C12, "C13": gen_C13,
